@@ -276,7 +276,8 @@ class AbstractExcelInPython(ABC):
             case 1:
                 return self._match(lookup_value, lookup_array, match_mode)
             case -1:
-                return self._match(lookup_value, lookup_array[::-1], match_mode)
+                index = self._match(lookup_value, lookup_array[::-1], match_mode)
+                return len(lookup_array) - index + 1 if isinstance(index, int) else index
             case 2:
                 index = self._binary_search(lookup_array, lookup_value)[output_value]
                 return index + 1 if index != -1 else '#N/A'
